@@ -175,6 +175,22 @@ func c13CheckEmitted(c c13Emit) engine.Result {
 					}
 				}
 			}
+		case "scte35-long":
+			// sections of 1 KiB and more (section_length beyond 10 bits), decoded and re-encoded
+			sec, ok := c08SectionOfLength(c.Seed)
+			if !ok {
+				return
+			}
+			s, err := scte35.NewSCTE35(ref.S35Bytes(&sec))
+			if err != nil {
+				res.Failf("emitted-section|splice_info_section|long-section-rejected", "section_length %d: %v", c.Seed, err)
+				return
+			}
+			enc := s.UpdateData()
+			res.Evals++
+			if ref.CRC32MPEG2(enc) != 0 {
+				res.Failf("emitted-section|splice_info_section|crc-residue", "section_length %d: CRC of the encoded section is %08x, want 0", c.Seed, ref.CRC32MPEG2(enc))
+			}
 		case "pmt":
 			seeds := c05SeedPools["pmt"]
 			if c.Seed >= len(seeds) {
@@ -286,13 +302,16 @@ func init() {
 			},
 			&engine.Enum[c13Emit]{
 				Name: "emitted-sections",
-				Rule: "every captured/constructed SCTE-35 section of the seed pool decoded and re-encoded with two tier values x alignment stuffing {0,1,4}, and every PMT of the seed pool filtered to each prefix of its PID list under 5 packetisations: the reference CRC of every emitted section must be zero (the exhaustive versions of this clause live in C09 and C14)",
+				Rule: "every captured/constructed SCTE-35 section of the seed pool decoded and re-encoded with two tier values x alignment stuffing {0,1,4}, SCTE-35 sections with section_length 900..4093 (around every multiple of 1024), and every PMT of the seed pool filtered to each prefix of its PID list under 5 packetisations: the reference CRC of every emitted section must be zero (the exhaustive versions of this clause live in C09 and C14)",
 				Gen: func(r *engine.Run, emit func(c13Emit)) {
 					for i := range c05SeedPools["scte35"] {
 						emit(c13Emit{"scte35", i})
 					}
 					for i := range c05SeedPools["pmt"] {
 						emit(c13Emit{"pmt", i})
+					}
+					for _, t := range []int{900, 1000, 1022, 1023, 1024, 1025, 1040, 1100, 2047, 2048, 2049, 3000, 3072, 4093} {
+						emit(c13Emit{"scte35-long", t})
 					}
 				},
 				Check: c13CheckEmitted, Batch: 1,
